@@ -308,7 +308,7 @@ HARNESSES = [Harness(f"snapshot[{name}]", sym_snap, replay_snap, _cfg_for(name),
 BOUNDS = dict(quick="PARAMFLOW: every path of every query() body of the classes exported by skactiveml.pool and "
                     "skactiveml.pool.multiannotator (calls on self inlined to depth 3, <= 4000 paths per method), all constructor "
                     "configurations of the abstract domain {None, True, False, literals compared in the code, dict, other}; "
-                    "SYMX snapshots: n = 3, batch 2, 3 candidate modes for the 27 adapter strategies",
+                    "SYMX snapshots: n = 3, batch 2, 3 candidate modes for the 29 adapter strategies",
               thorough="PARAMFLOW path budget 20000 per method",
               outside="effects inside third-party estimators; setattr/__dict__ tricks; callee classes outside skactiveml; "
                       "aliasing through containers; value-dependent in-place writes in strategies without a SYMX adapter")
